@@ -28,7 +28,7 @@
     ([split], [left], [right], [find*], [iter_mut], [*_mut]) only ever produce the disjoint slot
     sets of (a)-(c), so the lifetimes the signatures promise are honoured by the arena indexing. *)
 From Coq Require Import List NArith Bool Permutation Relations.
-From PT Require Import Lookup Lookup2 ViewsThm Slots MutTrav MutTravExtra UnionThm InterDiffThm.
+From PT Require Import Lookup Lookup2 ViewsThm Slots MutTrav MutTravExtra UnionThm InterDiffThm ParModel InstPar.
 From PT.Properties Require Import Common.
 Import ListNotations.
 
@@ -327,6 +327,62 @@ Proof.
   - exact (vm_apply_other pfx V T m2 m1 o2 H21 H12).
 Qed.
 
+(** * The two script operations that tie this property to the code ([alias], [par]: SCRIPT.md).
+      Their model side is [ParModel.v], extracted and run by the driver ([InstPar.t_*]). *)
+
+(** [alias]: in every reachable state the report the model prints is "all flags true": the
+    references of one [iter_mut] are pairwise distinct; the own values of all views of a recursive
+    [split()] are pairwise distinct and are exactly the entries; both sides of the four [*_mut]
+    set operations over the two halves of the root split are pairwise distinct entries of the
+    map (the difference ones avoid the read-only half).  The implementation must print the same
+    flags, computed from ADDRESSES. *)
+Theorem C14_alias_report (ops : list (hop V)) :
+  Forall (hop_ok w V) ops ->
+  let T := root (hrun w fl V ops) in
+  t_alias_report w fl V T = (length (entries T), true, true, true, true).
+Proof.
+  intros Hops T.
+  apply (alias_report_true_root pfx V _ _ _ _ _ _ _ _ _ LAWS T).
+  - exact (reachable_wfm w fl V Hw ops Hops).
+  - exact (C14_reachable_distinct_slots ops Hops).
+Qed.
+
+(** [par k]: the splitter and the workers write pairwise disjoint slot sets, and EVERY schedule of
+    the workers' individual writes — indeed every order of all individual writes — yields the tree
+    the model computes by running them one after the other; only values change. *)
+Theorem C14_par_schedule_independent (sf : V -> V) (wf : nat -> V -> V) (k : nat) (T : tree) :
+  NoDup (ids T) ->
+  let ws := snd (t_par_jobs w V sf k T) in
+  let W := par_workers pfx V (is_bit_set w) plen pzero wf sf k T in
+  NoDup (map fst ws ++ concat (map (map fst) W)) /\
+  (forall s, interleaveN W s -> write_each T (ws ++ s) = t_par_result w V wf sf k T) /\
+  (forall s, Permutation s (par_writes pfx V (is_bit_set w) plen pzero wf sf k T) ->
+             write_each T s = t_par_result w V wf sf k T) /\
+  fold_left (fun t w0 => write_ids t w0) W (write_ids T ws) = t_par_result w V wf sf k T /\
+  map fst (entries (t_par_result w V wf sf k T)) = map fst (entries T) /\
+  ids (t_par_result w V wf sf k T) = ids T /\
+  MutTrav.skel pfx V (t_par_result w V wf sf k T) = MutTrav.skel pfx V T.
+Proof.
+  intros Hnd ws W.
+  destruct (par_schedule_independent pfx V (is_bit_set w) plen pzero sf wf k T Hnd) as (A & _ & _ & B & C & D).
+  destruct (par_result_frame pfx V (is_bit_set w) plen pzero sf wf k T) as (E & F & G & _).
+  repeat split; assumption.
+Qed.
+
+(** every entry is written exactly once by [par]: by the splitter (the own entry of a node that
+    is split) or by exactly one worker *)
+Theorem C14_par_jobs_cover (sf : V -> V) (k : nat) (T : tree) :
+  NoDup (ids T) ->
+  let jobs := fst (t_par_jobs w V sf k T) in
+  let ws := snd (t_par_jobs w V sf k T) in
+  forall i p x, In (i, p, x) (entries_id T) ->
+    (In (i, sf x) ws /\ forall j, In j jobs -> ~ In i (job_slots pfx V T j))
+    \/
+    (~ In i (map fst ws) /\
+     exists n j, nth_error jobs n = Some j /\ In (i, p, x) (vm_iter_mut T j) /\
+       forall n' j', nth_error jobs n' = Some j' -> In i (job_slots pfx V T j') -> n' = n).
+Proof. intros Hnd. exact (par_jobs_cover pfx V (is_bit_set w) plen pzero sf k T Hnd). Qed.
+
 End C14.
 
 (** non-vacuity (w = 8): the map {00/2 -> 1, 40/2 -> 2, 80/1 -> 3, c0/2 -> 4} with the
@@ -357,6 +413,9 @@ Example C14_example :
   MutTrav.write_each pfx nat (MutTrav.write_each pfx nat T w1) w2 = write_ids T [(3%N, 20%nat); (5%N, 40%nat)].
 Proof. vm_compute. repeat split; reflexivity. Qed.
 
+Print Assumptions C14_alias_report.
+Print Assumptions C14_par_schedule_independent.
+Print Assumptions C14_par_jobs_cover.
 Print Assumptions C14_reachable_distinct_slots.
 Print Assumptions C14_iter_mut_distinct.
 Print Assumptions C14_iter_mut_distinct_reachable.
